@@ -857,6 +857,18 @@ func (w *World) openInner() error {
 		}
 		w.inner = c
 		return nil
+	case "fsopt", "fsencopt":
+		// the documented DSN route with every optional parameter set
+		dsn := "fscache://" + w.dir + "?appname=app&update_mtime=on&timeout=90s&connect_timeout=45s"
+		if w.sc.Backend == "fsencopt" {
+			dsn += "&encrypt=aesgcm&encrypt_key=" + url.QueryEscape(encKey)
+		}
+		c, err := store.Open(dsn)
+		if err != nil {
+			return err
+		}
+		w.inner = c
+		return nil
 	}
 	return fmt.Errorf("unknown backend %q", w.sc.Backend)
 }
@@ -904,8 +916,21 @@ func (w *World) newTransport() (rt http.RoundTripper, err error) {
 	if w.sc.SWRSet {
 		opts = append(opts, httpcache.WithSWRTimeout(time.Duration(w.sc.SWRNs)))
 	}
-	if w.sc.Logger == "debug" {
-		opts = append(opts, httpcache.WithLogger(slog.New(slog.NewJSONHandler(w.logbuf, &slog.HandlerOptions{Level: slog.LevelDebug}))))
+	switch w.sc.Logger {
+	case "":
+	case "text":
+		opts = append(opts, httpcache.WithLogger(slog.New(slog.NewTextHandler(w.logbuf, &slog.HandlerOptions{Level: slog.LevelDebug, AddSource: true}))))
+	default:
+		lvl := slog.LevelDebug
+		switch w.sc.Logger {
+		case "info":
+			lvl = slog.LevelInfo
+		case "warn":
+			lvl = slog.LevelWarn
+		case "error":
+			lvl = slog.LevelError
+		}
+		opts = append(opts, httpcache.WithLogger(slog.New(slog.NewJSONHandler(w.logbuf, &slog.HandlerOptions{Level: lvl}))))
 	}
 	return httpcache.NewTransport("verif://"+w.id, opts...), nil
 }
@@ -920,7 +945,7 @@ func Run(t *testing.T, sc *Scenario) *Obs {
 		w.faults[f.At] = f
 	}
 	w.curEx.Store(-1)
-	if sc.Backend == "fs" || sc.Backend == "fsenc" {
+	if strings.HasPrefix(sc.Backend, "fs") {
 		w.dir = filepath.Join(scratchRoot, w.id)
 		_ = os.MkdirAll(w.dir, 0o755)
 		defer os.RemoveAll(w.dir)
